@@ -1,6 +1,7 @@
 import H4.Gen.Hdf
 import H4.Gen.Fmt
 import H4.Gen.FmtNc
+import H4.Gen.FmtDesc
 import H4.Gen.Hcomp
 import H4.Rle
 import H4.SkpHuffIO
@@ -28,6 +29,13 @@ Written from the DOCUMENTED layout, not from any model of the writer:
 * Vdata header `DFTAG_VH`: "CONTENTS of VS stored in HDF file" in `hdf/src/vio.c` and the version-4 layout in the header of `vattr.c`.
 * Vgroup record `DFTAG_VG`: comment before `vpackvg` in `hdf/src/vgp.c` and `vattr.c`.
 * `DFTAG_VERSION`: `LIBVER_LEN` = 4+4+4+80 (`hfile.h`).
+* the old-style descriptive records that the DFSD / DFR8 / DF24 / DFGR interfaces define and the SD and GR interfaces keep writing
+  next to their Vgroups: number type `DFTAG_NT` (version, type, width in bits, class: `hntdefs.h`), dimension record `DFTAG_SDD`
+  (rank, dimension sizes, data NT, one scale NT per dimension: `DFSDIputndg` of `dfsd.c`, `hdf_write_var` of `mfhdf/src/cdf.c`),
+  image / palette dimension record `DFTAG_ID` / `DFTAG_LD` / `DFTAG_MD` (xdim, ydim, NT, components, interlace, compression tag/ref:
+  `DFGRaddrig` of `dfgr.c`, `DFR8putrig` of `dfr8.c`, `GRIupdatemeta` of `mfgr.c`), label / unit / format strings
+  `DFTAG_SDL` / `DFTAG_SDU` / `DFTAG_SDF` (rank + 1 NUL-terminated strings) and the groups `DFTAG_NDG` / `DFTAG_SDG` / `DFTAG_RIG` that tie
+  them to the data (`DFdiwrite` of `dfgroup.c`).
 
 Everything here is core-only and total.  Constants come from `H4.Gen.*` (Tie A). -/
 namespace H4.Format
@@ -516,6 +524,86 @@ def decodeVersion (b : Bytes) : Option Version := do
   let (m, r) ← get32 r
   let (rl, r) ← get32 r
   if r.length = LIBVSTR_LEN then some ⟨a, m, rl, r⟩ else none
+
+/-! ## old-style descriptive records (DFSD / DFR8 / DF24 / DFGR, also written by the SD and GR interfaces) -/
+
+/-- `DFTAG_NT`: version, type (low byte of the `DFNT_` code), width in bits, class — one byte each -/
+structure NT where
+  version : Nat
+  type : Nat
+  width : Nat
+  cls : Nat
+deriving DecidableEq, Repr, Inhabited
+
+def encodeNT (n : NT) : Bytes := enc8 n.version ++ enc8 n.type ++ enc8 n.width ++ enc8 n.cls
+/-- exactly 4 bytes -/
+def decodeNT : Bytes → Option NT
+  | [a, b, c, d] => some ⟨a.toNat, b.toNat, c.toNat, d.toNat⟩
+  | _ => none
+
+def getS32s : Nat → Bytes → Option (List Int × Bytes)
+  | 0, r => some ([], r)
+  | n+1, r => do
+    let (x, r) ← getS32 r
+    let (xs, r) ← getS32s n r
+    some (x :: xs, r)
+
+def encPair (p : Nat × Nat) : Bytes := enc16 p.1 ++ enc16 p.2
+
+/-- `DFTAG_SDD`: rank, dimension sizes, tag/ref of the number type of the data, tag/ref of the number type of the scale of every
+    dimension ("scale NTs written even if no scale", `DFSDIputndg`) — 2 + 4·rank + 4·(rank+1) bytes -/
+structure SDD where
+  dims : List Int
+  dataNT : Nat × Nat
+  /-- one per dimension -/
+  scaleNTs : List (Nat × Nat)
+deriving DecidableEq, Repr, Inhabited
+
+def encodeSDD (s : SDD) : Bytes :=
+  enc16 s.dims.length ++ s.dims.flatMap encS32 ++ encPair s.dataNT ++ s.scaleNTs.flatMap encPair
+def decodeSDD (b : Bytes) : Option SDD := do
+  let (rank, r) ← get16 b
+  let (dims, r) ← getS32s rank r
+  let (dt, r) ← get16 r
+  let (dr, r) ← get16 r
+  let (sn, r) ← getPairs16 rank r
+  if r.isEmpty then some ⟨dims, (dt, dr), sn⟩ else none
+
+/-- `DFTAG_ID` (image), `DFTAG_LD` (palette), `DFTAG_MD` (matte): xdim, ydim (int32), NT tag/ref, number of components,
+    interlace (int16), compression tag/ref — 20 bytes -/
+structure ImgDesc where
+  xdim : Int
+  ydim : Int
+  ntTag : Nat
+  ntRef : Nat
+  ncomps : Int
+  interlace : Int
+  compTag : Nat
+  compRef : Nat
+deriving DecidableEq, Repr, Inhabited
+
+def encodeImgDesc (d : ImgDesc) : Bytes :=
+  encS32 d.xdim ++ encS32 d.ydim ++ enc16 d.ntTag ++ enc16 d.ntRef ++ encS16 d.ncomps ++ encS16 d.interlace ++
+  enc16 d.compTag ++ enc16 d.compRef
+def decodeImgDesc (b : Bytes) : Option ImgDesc := do
+  let (x, r) ← getS32 b
+  let (y, r) ← getS32 r
+  let (nt, r) ← get16 r
+  let (nr, r) ← get16 r
+  let (nc, r) ← getS16 r
+  let (il, r) ← getS16 r
+  let (ct, r) ← get16 r
+  let (cr, r) ← get16 r
+  if r.isEmpty then some ⟨x, y, nt, nr, nc, il, ct, cr⟩ else none
+
+/-- `DFTAG_SDL` / `DFTAG_SDU` / `DFTAG_SDF`: NUL-terminated strings one after the other (the data set's, then one per dimension) -/
+def encodeStrs (l : List Bytes) : Bytes := l.flatMap (· ++ [0])
+/-- `cur` = the bytes of the string being read, reversed; `none` when the record does not end with a terminator -/
+def decodeStrsAux : Bytes → Bytes → Option (List Bytes)
+  | [], [] => some []
+  | [], _ :: _ => none
+  | c :: r, cur => if c = 0 then (decodeStrsAux r []).map (cur.reverse :: ·) else decodeStrsAux r (c :: cur)
+def decodeStrs (b : Bytes) : Option (List Bytes) := decodeStrsAux b []
 
 /-! ## the file-level reader -/
 
@@ -1079,6 +1167,175 @@ def checkGroup (dds : List DD) (tag ref : Nat) (ms : List (Nat × Nat)) : R Unit
 /-- logical bytes of the element behind a descriptor, when the reader can produce them -/
 def Elem.bytes? (e : Elem) : Option Bytes := e.ldata.data.map (·.toList)
 
+/-! ### the descriptive records against the data they describe
+
+Rules, each derived from the writers:
+* `nt`: a number type named by a dimension record is a `DFTAG_NT` element of 4 bytes: version `DFNT_VERSION`, a type `DFKNTsize` knows,
+  width = 8 · size, class one of the `DFNTF_` / `DFNTC_` codes (`DFSDIputndg`, `hdf_write_var`, `GRIupdatemeta`, `DFGRaddrig`, `DFR8putrig`
+  all write exactly this).
+* `sdd`: the dimension record of a data set decodes (rank, rank sizes ≥ 0, rank + 1 number types); when the group names a data element
+  that is in the file and has been written, product(sizes) · size(NT) is the LOGICAL length of that element (`DFSDIputdata` /
+  `DFSDstartslab` reserve exactly that; the SD interface pre-sizes a fixed-size variable at its first write and keeps
+  `vp->numrecs` = length / record size for a record variable: `hdf_write_var` stores it at `SDend` of the creating session,
+  `hdf_close` refreshes it in place at the end of every later writing session).  Label / unit / format records hold rank + 1 strings.
+* `id`: an image / palette dimension record is 20 bytes, sizes ≥ 0, components ≥ 1, interlace 0..2; no compression tag: xdim · ydim ·
+  components · size(NT) is the logical length of the image / palette element when that has been written (`GRIupdatemeta`,
+  `DFGRaddrig`, `DFR8putrig`); compression tag `DFTAG_RLE` / `DFTAG_IMC`: nothing to compare (the element holds the packed rows);
+  `DFTAG_JPEG5` / `DFTAG_GREYJPEG5`: the element is a JFIF stream; the old `DFTAG_JPEG` / `DFTAG_GREYJPEG`: the header element with the
+  image's reference number is in the file (`DFCIunjpeg` reads it).  An image element of length 0 is an image without pixels
+  (`GRIupdateRI` allocates it); a dimension record without number type (0/0, `DFGRaddrig` for palettes) describes 8-bit values.
+  A palette named by a group without a palette dimension record (`DFR8putrig`) and every `DFTAG_IP8` is 768 bytes. -/
+
+abbrev Complaint := String × String
+
+def elemOf (elems : List Elem) (tag ref : Nat) : Option Elem :=
+  elems.find? fun e => baseTag e.dd.tag == baseTag tag && e.dd.ref == ref
+
+/-- an element that is in the file and has been written (not the `(-1, -1)` placeholder) -/
+def writtenElem (elems : List Elem) (tag ref : Nat) : Option Elem :=
+  (elemOf elems tag ref).filter fun e => !isEmptyDD e.dd
+
+/-- `DFKNTsize` of a type code (Tie A table `H4.Gen.Conv.table`) -/
+def ntSizeOf (t : Nat) : Option Nat := (H4.Gen.Conv.table.find? (·.1 == t)).map (·.2.1)
+
+def ntOK (n : NT) : Option Nat :=
+  match ntSizeOf n.type with
+  | none => none
+  | some sz => if n.version = H4.Gen.FmtDesc.DFNT_VERSION ∧ n.width = 8 * sz ∧ n.cls ≤ H4.Gen.FmtDesc.DFNTF_VP then some sz else none
+
+/-- the number type `tag/ref` named by `who`: complaints, and the size of one value when there are none -/
+def checkNT (elems : List Elem) (who : String) (tag ref : Nat) : List Complaint × Option Nat :=
+  if tag ≠ DFTAG_NT then ([("nt", s!"{who}: number type {tag}/{ref} is not a DFTAG_NT")], none) else
+  match elemOf elems tag ref with
+  | none => ([("nt", s!"{who}: number type DFTAG_NT/{ref} does not exist")], none)
+  | some e =>
+    match e.ldata.data.map (·.toList) with
+    | none => ([("nt", s!"{who}: number type DFTAG_NT/{ref} is not readable")], none)
+    | some bs =>
+      match decodeNT bs with
+      | none => ([("nt", s!"{who}: number type DFTAG_NT/{ref} has {bs.length} bytes, not 4")], none)
+      | some n =>
+        match ntOK n with
+        | some sz => ([], some sz)
+        | none => ([("nt", s!"{who}: number type DFTAG_NT/{ref} version {n.version} type {n.type} width {n.width} class {n.cls}: unknown type, or the width is not that of the type")], none)
+
+def lufTags : List Nat := [DFTAG_SDL, DFTAG_SDU, DFTAG_SDF]
+
+/-- the first member with one of `tags` -/
+def memberOf (ms : List (Nat × Nat)) (tags : List Nat) : Option (Nat × Nat) := ms.find? fun m => tags.contains m.1
+
+/-- one dimension record `DFTAG_SDD/ref` of the data-set group `who` with members `ms` -/
+def checkSDD (elems : List Elem) (who : String) (ms : List (Nat × Nat)) (ref : Nat) : List Complaint :=
+  match elemOf elems DFTAG_SDD ref with
+  | none => []        -- existence is the business of `checkGroup` / `checkVG` (clause xref)
+  | some e =>
+    match e.ldata.data.map (·.toList) with
+    | none => [("sdd", s!"{who}: DFTAG_SDD/{ref} is not readable")]
+    | some bs =>
+      match decodeSDD bs with
+      | none => [("sdd", s!"{who}: DFTAG_SDD/{ref} ({bs.length} bytes) is not rank, rank sizes and rank+1 number types")]
+      | some s =>
+        let who := s!"{who} DFTAG_SDD/{ref}"
+        let rank := s.dims.length
+        let cDims := if s.dims.any (· < 0) then [("sdd", s!"{who}: negative dimension size in {s.dims}")] else []
+        let (cNT, osz) := checkNT elems who s.dataNT.1 s.dataNT.2
+        let cScale := s.scaleNTs.flatMap fun p => (checkNT elems who p.1 p.2).1
+        let cData := match osz, memberOf ms [DFTAG_SD] with
+          | some sz, some (_, dr) =>
+            match writtenElem elems DFTAG_SD dr with
+            | some de =>
+              let want := prod (s.dims.map (·.toNat)) * sz
+              if de.ldata.len = want then []
+              else [("sdd", s!"{who}: dimensions {s.dims} of {sz}-byte values describe {want} bytes, the data element DFTAG_SD/{dr} holds {de.ldata.len}")]
+            | none => []
+          | _, _ => []
+        let cLuf := (ms.filter fun m => lufTags.contains m.1).flatMap fun m =>
+          match (elemOf elems m.1 m.2).bind (fun e => e.ldata.data.map (·.toList)) with
+          | none => []
+          | some lb =>
+            match decodeStrs lb with
+            | none => [("sdd", s!"{who}: string record {m.1}/{m.2} does not end with a terminator")]
+            | some strs => if strs.length = rank + 1 then [] else [("sdd", s!"{who}: string record {m.1}/{m.2} holds {strs.length} strings, rank + 1 = {rank + 1}")]
+        cDims ++ cNT ++ cScale ++ cData ++ cLuf
+
+/-- a data-set group (`DFTAG_NDG`, `DFTAG_SDG`, Vgroup of class `Var0.0`): every dimension record it names -/
+def checkSDGroup (elems : List Elem) (who : String) (ms : List (Nat × Nat)) : List Complaint :=
+  (ms.filter fun m => m.1 == DFTAG_SDD).flatMap fun m => checkSDD elems who ms m.2
+
+/-- one image / palette dimension record `tag/ref` (`DFTAG_ID` with the data tags `DFTAG_RI`/`DFTAG_CI`, `DFTAG_LD` with `DFTAG_LUT`) -/
+def checkImgDesc (elems : List Elem) (who : String) (ms : List (Nat × Nat)) (tag ref : Nat) (dataTags : List Nat) : List Complaint :=
+  match elemOf elems tag ref with
+  | none => []
+  | some e =>
+    match e.ldata.data.map (·.toList) with
+    | none => [("id", s!"{who}: dimension record {tag}/{ref} is not readable")]
+    | some bs =>
+      match decodeImgDesc bs with
+      | none => [("id", s!"{who}: dimension record {tag}/{ref} has {bs.length} bytes, not 20")]
+      | some d =>
+        let who := s!"{who} dimension record {tag}/{ref}"
+        let cShape :=
+          if d.xdim < 0 ∨ d.ydim < 0 ∨ d.ncomps < 1 ∨ d.interlace < 0 ∨ d.interlace > (H4.Gen.FmtDesc.DFIL_PLANE : Nat) then
+            [("id", s!"{who}: xdim {d.xdim} ydim {d.ydim} components {d.ncomps} interlace {d.interlace}")] else []
+        -- "A record without number type (tag/ref 0/0: DFGRaddlut writes such palette dimensions)" (`GRIget_nt`, mfgr.c): raster data
+        -- without a number type are 8-bit values
+        let (cNT, osz) := if d.ntTag = 0 ∨ d.ntRef = 0 then ([], some 1) else checkNT elems who d.ntTag d.ntRef
+        let cData :=
+          if d.compTag = 0 ∨ d.compTag = DFTAG_NULL then
+            match osz, memberOf ms dataTags with
+            | some sz, some (dt, dr) =>
+              match writtenElem elems dt dr with
+              | some de =>
+                let want := d.xdim.toNat * d.ydim.toNat * d.ncomps.toNat * sz
+                -- `GRIupdateRI` allocates the image element (length 0) of an image that has no pixels yet
+                if de.ldata.len = want ∨ de.ldata.len = 0 then []
+                else [("id", s!"{who}: {d.xdim} x {d.ydim} pixels of {d.ncomps} {sz}-byte components describe {want} bytes, the element {dt}/{dr} holds {de.ldata.len}")]
+              | none => []
+            | _, _ => []
+          else if d.compTag = DFTAG_RLE ∨ d.compTag = DFTAG_IMC ∨ d.compTag = DFTAG_JPEG5 ∨ d.compTag = DFTAG_GREYJPEG5 then []
+          else if d.compTag = H4.Gen.FmtDesc.DFTAG_JPEG ∨ d.compTag = H4.Gen.FmtDesc.DFTAG_GREYJPEG then
+            -- the old JPEG layout: the tables are a separate element with the image's reference number (`DFCIunjpeg`)
+            match memberOf ms dataTags with
+            | some (_, dr) => if (elemOf elems d.compTag dr).isSome then [] else [("id", s!"{who}: JPEG header {d.compTag}/{dr} does not exist")]
+            | none => []
+          else [("id", s!"{who}: unknown compression tag {d.compTag}")]
+        cShape ++ cNT ++ cData
+
+/-- an image group (`DFTAG_RIG`, Vgroup of class `RI0.0`) -/
+def checkRIGroup (elems : List Elem) (who : String) (ms : List (Nat × Nat)) : List Complaint :=
+  ((ms.filter fun m => m.1 == DFTAG_ID).flatMap fun m => checkImgDesc elems who ms DFTAG_ID m.2 [DFTAG_RI, DFTAG_CI]) ++
+  ((ms.filter fun m => m.1 == DFTAG_LD).flatMap fun m => checkImgDesc elems who ms DFTAG_LD m.2 [DFTAG_LUT]) ++
+  (if (memberOf ms [DFTAG_LD]).isSome then [] else
+    (ms.filter fun m => m.1 == DFTAG_LUT).flatMap fun m =>
+      match writtenElem elems m.1 m.2 with
+      | some pe => if pe.ldata.len = 768 then [] else [("id", s!"{who}: palette {m.1}/{m.2} without a dimension record holds {pe.ldata.len} bytes, not 768")]
+      | none => [])
+
+/-- complaints about one element in its role as a group record or a stand-alone 8-bit palette -/
+def elemComplaints (elems : List Elem) (e : Elem) : List Complaint :=
+  if e.dd.tag = Gen.Hdf.DFTAG_NDG ∨ e.dd.tag = DFTAG_SDG then
+    match (e.ldata.data.map (·.toList)).bind decodeGroup with
+    | some ms => checkSDGroup elems s!"group {e.dd.tag}/{e.dd.ref}" ms
+    | none => []
+  else if e.dd.tag = DFTAG_RIG then
+    match (e.ldata.data.map (·.toList)).bind decodeGroup with
+    | some ms => checkRIGroup elems s!"group {e.dd.tag}/{e.dd.ref}" ms
+    | none => []
+  else if e.dd.tag = DFTAG_IP8 ∧ !isEmptyDD e.dd then
+    if e.ldata.len = 768 then [] else [("id", s!"DFTAG_IP8/{e.dd.ref} holds {e.ldata.len} bytes, not 768")]
+  else []
+
+/-- the Vgroups through which the SD and GR interfaces name the same records -/
+def vgComplaints (elems : List Elem) (p : Nat × VG) : List Complaint :=
+  if p.2.cls = H4.Gen.FmtDesc.VAR_CLASS.map UInt8.ofNat then checkSDGroup elems s!"DFTAG_VG/{p.1}" p.2.members
+  else if p.2.cls = H4.Gen.FmtDesc.RI_CLASS.map UInt8.ofNat then checkRIGroup elems s!"DFTAG_VG/{p.1}" p.2.members
+  else []
+
+/-- everything the descriptive records have to say, file order -/
+def descComplaints (elems : List Elem) (vgs : List (Nat × VG)) : List Complaint :=
+  elems.flatMap (elemComplaints elems) ++ vgs.flatMap (vgComplaints elems)
+
+
 def maxNest : Nat := 6
 
 /-- Vdata headers, Vgroup records and the version record, each checked against the descriptors it names -/
@@ -1135,6 +1392,22 @@ def decodeFile (b : ByteArray) : R FileContent :=
       | .error e => .error e
       | .ok (vhs, vgs, version) =>
         let c : FileContent := ⟨raw.size, raw.blocks, raw.dds, elems, vhs, vgs, version⟩
-        if finalOK c then .ok c else bad "xref" "final cross-reference check failed"
+        if finalOK c then
+          match descComplaints elems vgs with
+          | [] => .ok c
+          | (clause, detail) :: _ => bad clause detail
+        else bad "xref" "final cross-reference check failed"
+
+/-- for diagnosis: ALL complaints about the descriptive records (the reader stops at the first) -/
+def allDescComplaints (b : ByteArray) : List Complaint :=
+  match readRaw b with
+  | .error _ => []
+  | .ok raw =>
+    match raw.dds.mapM (readElem b raw.dds maxNest) with
+    | .error _ => []
+    | .ok elems =>
+      match readRecords raw.dds elems with
+      | .error _ => []
+      | .ok (_, vgs, _) => descComplaints elems vgs
 
 end H4.Format
